@@ -25,6 +25,7 @@ FIXES = [
     ('5780fb7', 'C10', 'D16b flush before a transforming process writes to the output file'),
     ('4cc3a30', 'C17', 'D17 line-nums range resolved once for all cases of a suite'),
     ('775fa4d', 'C18', 'D18 _hds of SDV validators never set'),
+    ('9626e28', 'C14', 'D20 spill file of the spooled buffer read back with newline translation'),
     ('ffb3fe6', 'C16', 'D19 suite file reference whose stat fails with another OSError than FileNotFoundError'),
 ]
 
